@@ -29,7 +29,7 @@ NextR == /\ i < Len(ex.sched)
          /\ i' = i + 1 /\ UNCHANGED <<pid, ex>>
 SpecR == InitR /\ [][NextR]_rvars
 
-Brief(v) == [t |-> v.t, a |-> v.a, o |-> v.o, f |-> v.f, d |-> v.d]
+Brief(v) == [t |-> v.t, a |-> v.a, o |-> v.o, f |-> v.f, d |-> v.d, m |-> v.m]
 EmitR ==
   LET s == Settled IN
   /\ (i < Len(ex.sched) /\ ~En(s, ex.sched[i + 1]) /\ ~s.aborted)
